@@ -543,6 +543,54 @@ def _structural(ctx) -> None:
         ctx.ob("e.structural-ops", h, "no-kind-refusal", not bad, f"{q.split('.')[-1]} refuses no operand for its dtype", h.node,
                message=f"{q}: " + "; ".join(bad[:2]) + ": two non-nullable vectors of different kinds cannot be stacked / concatenated although "
                        "the same values are accepted once a None occurs or the operand is a list")
+    # a vector given as DATA - Vector(v), Table({'a': v}) - is read element by element: Vector.__new__ never takes its truth value
+    # (Vector.__bool__ raises). Decided by evaluating every truth-tested data term for `initial` = a one-dimensional vector.
+    vn = prog.func("vector.Vector.__new__")
+    vi = interp_of(prog, vn)
+    INIT = ("param", vn.params[1])
+
+    def vtruth(t):
+        k = t[0]
+        if k == "bool":
+            vs = [vtruth(x) for x in t[2]]
+            if t[1] == "and":
+                return False if any(v is False for v in vs) else (True if all(v is True for v in vs) else None)
+            return True if any(v is True for v in vs) else (False if all(v is False for v in vs) else None)
+        if k == "un" and t[1] == "Not":
+            v = vtruth(t[2])
+            return None if v is None else not v
+        if k == "call" and t[1] == ("name", "isinstance") and len(t[2]) == 2 and t[2][0] == INIT:
+            names = {x[1] for x in subterms(t[2][1]) if x[0] == "name"}
+            return "Vector" in names
+        if k == "cmp" and t[1] in ("LtE", "Lt", "Eq") and t[2] == ("call", ("attr", INIT, "ndims"), (), ()) and t[3][0] == "const":
+            return {"LtE": 1 <= t[3][2], "Lt": 1 < t[3][2], "Eq": 1 == t[3][2]}[t[1]]
+        return None
+
+    def vval(t):
+        if t == INIT:
+            return "V"
+        if t[0] == "ifexp":
+            c = vtruth(t[1])
+            return vval(t[2]) if c is True else (vval(t[3]) if c is False else ("V" if "V" in (vval(t[2]), vval(t[3])) else None))
+        if t[0] == "call" and t[1] in (("name", "tuple"), ("name", "list")):
+            return "T"
+        return None
+    truth_of_vector = []
+    for e in vi.events:
+        for c, pol in e.conds:
+            stack = [c]
+            while stack:
+                x = stack.pop()
+                if x[0] == "bool":
+                    stack += list(x[2])
+                elif x[0] == "un" and x[1] == "Not":
+                    stack.append(x[2])
+                elif vval(x) == "V":
+                    truth_of_vector.append(getattr(e.node, "lineno", "?"))
+    ctx.ob("e.structural-ops", vn, "vector-as-data", not truth_of_vector, "the data's truth value is never taken while it may be a vector", vn.node,
+           message=f"Vector.__new__ takes the truth value of its data while it can still be a Vector (first use near line "
+                   f"{truth_of_vector[0] if truth_of_vector else '?'}): Vector(v) and Table({{'a': v}}) raise TypeError 'cannot be used in a boolean "
+                   f"context'")
     # t[i]: the i-th row exists exactly for -len(t) <= i < len(t) (shared with C07.d): the row view and the columns agree on which
     # positions exist
     from .c07 import row_bounds_exact
@@ -627,6 +675,8 @@ def _structural(ctx) -> None:
 
 _T, _V = "table", "vector"
 MUTANTS = [
+    dict(id="vector-data-truth-tested", module="vector", old="		elif isinstance(initial, Vector) and initial.ndims() <= 1:", new="		elif False:",
+         rules=["e.structural-ops"], desc="reverts fix ab17af0: Table({'a': v}) raises TypeError"),
     dict(id="rshift-typesafe-guard-back", module="vector",
          old="		if isinstance(other, Vector):\n			# (no dtype: two columns of unequal length",
          new="		if isinstance(other, Vector):\n			if self._dtype is not None and other.schema() is not None and not self._dtype.nullable and not other.schema().nullable and self._dtype.kind != other.schema().kind:\n				raise SerifTypeError(\"Cannot concatenate two typesafe Vectors of different types\")\n			# (no dtype: two columns of unequal length",
